@@ -25,6 +25,15 @@ TRUSTED = [
     "outcome), the state backends (replaced by a store: a PASS leaves the set states in the executing worker's own pool; "
     "check consults own/shared pool by scope), lazy expansion of flat leaves and replay of previous jobs (not in this model)",
     "virtual-time event loop of the harness (asyncio.SelectorEventLoop subclass)",
+    "harness/pygen.py + harness/pygen_pxready.py (Python AST -> Lean `do` block, fails closed) regenerate "
+    "I2N/Extracted/GenLoc.lean on every run from the source of the property TestNode.shared_result_worker_ids (loop over the "
+    "shared results behind the `continue` for non-PASS statuses, first worker id that is a substring of the result name, "
+    "add + break); sharedResultWorkerIds_matches_source proves that the ids of the model's sharedResultWorkerIds are exactly "
+    "the elements of the generated set, for every graph, state and node (no hypotheses), and "
+    "pull_locations_names_source_ids that the worker locations pullLocations adds are <id>:/pool/swarm for exactly those "
+    "ids.  Trusted: the translator; the atoms (self.shared_results = sharedResults; the comprehension over "
+    "TestSwarm.run_swarms = the worker ids in the exported order; a Python set is represented by the list of its elements); "
+    "the loop of pull_locations itself (parameter updates, access parameters) is tied by the differential runs only",
 ]
 CORPUS = os.path.join(vlib.VERIF, "corpus", PROP)
 
@@ -47,3 +56,15 @@ def search(ctx, reason):
 
 def replay(ctx, payload):
     trav_common.replay_case(ctx, payload, MONITORS)
+
+
+def extract(ctx):
+    """lean/I2N/Extracted/GenLoc.lean from the AST of /repo's cartgraph/node.py (second tie, see harness/pygen.py and
+    harness/pygen_pxready.py).  Raises (pygen.Unsupported) when the function left the translated subset: run.py records
+    that as a broken proof obligation."""
+    import pygen_pxready
+    if pygen_pxready.extract_loc(ctx):
+        ctx.notes.append("I2N/Extracted/GenLoc.lean changed: the source of TestNode.shared_result_worker_ids differs from "
+                         "the one the committed file was generated from (sharedResultWorkerIds_matches_source is re-checked)")
+    ctx.extra["regenerated"] = ("lean/I2N/Extracted/GenLoc.lean (TestNode.shared_result_worker_ids via "
+                                "harness/pygen_pxready.py)")
